@@ -92,7 +92,9 @@ def run(ctx: Ctx) -> None:
         t = {k: (v.detach().clone().requires_grad_(True) if (k in diff) else v) for k, v in tensors.items()}
         torch.manual_seed(seed)
         y = fn(t)
-        g = torch.Generator().manual_seed(seed + 1)
+        # never the data stream's seed: an upstream gradient equal to the input makes the input gradient of a normalisation
+        # pure cancellation (true value ~0), where eager and compiled kernels differ by the rounding of the cancelling terms
+        g = torch.Generator().manual_seed((seed + 1) * 7919 + 104729)
         up = torch.randn(y.shape, generator=g, dtype=torch.float64).to(up_dtype or y.dtype).to(y.dtype)
         if eps:
             up = perturbed(up, eps, 16)
